@@ -249,6 +249,22 @@ class Expander:
         self.ctx, self.f, self.depth, self.only = ctx, f, depth, only
         self.cfg = ctx.cfg(f)
         self.rd = ctx.rd(f)
+        # names whose object is written in place somewhere in the function are never replaced
+        # (their defining expression no longer describes them after the write)
+        self.mutated = set()
+        from . import tables as _T
+        for x in walk_no_nested(f.node):
+            if isinstance(x, ast.Call) and isinstance(x.func, ast.Attribute) and isinstance(x.func.value, ast.Name) \
+                    and x.func.attr in _T.MUTATING_METHODS:
+                self.mutated.add(x.func.value.id)
+            if isinstance(x, (ast.Assign, ast.AugAssign)):
+                for t in (x.targets if isinstance(x, ast.Assign) else [x.target]):
+                    if isinstance(t, ast.Subscript):
+                        b = base_key(t.value)
+                        if b:
+                            self.mutated.add(b.split(".")[0])
+                    if isinstance(x, ast.AugAssign) and isinstance(t, ast.Name):
+                        self.mutated.add(t.id)
 
     def expand_at(self, site: ast.AST, e: ast.expr) -> ast.expr:
         try:
@@ -265,7 +281,7 @@ class Expander:
 
         class T(ast.NodeTransformer):
             def visit_Name(self, node):
-                if not isinstance(node.ctx, ast.Load):
+                if not isinstance(node.ctx, ast.Load) or node.id in exp.mutated:
                     return node
                 vals = exp.rd.value_exprs(n, node.id)
                 if len(vals) != 1:
@@ -273,11 +289,28 @@ class Expander:
                 d, v, how = vals[0]
                 if how != "bind" or v is None or isinstance(v, (ast.Tuple, ast.List)):
                     return node
-                if exp.only is not None and not exp.only(v):
+                is_unpack = isinstance(d.ast, ast.Assign) and isinstance(d.ast.targets[0], ast.Tuple)
+                if exp.only is not None and not is_unpack and not exp.only(v):
                     return node
                 # the statement must bind this name alone (not a tuple unpacking of a call)
                 s = d.ast
                 tg = s.targets[0] if isinstance(s, ast.Assign) and len(s.targets) == 1 else getattr(s, "target", None)
+                if isinstance(tg, ast.Tuple) and isinstance(s, ast.Assign):
+                    # a, b = <helper returning a tuple>(...)  -> the matching element of the inlined return
+                    names = [t.id if isinstance(t, ast.Name) else None for t in tg.elts]
+                    if node.id not in names:
+                        return node
+                    rhs = s.value
+                    if isinstance(rhs, ast.Call):
+                        rhs = exp._inline_call(rhs, depth - 1)
+                    if isinstance(rhs, ast.Tuple) and len(rhs.elts) == len(names):
+                        v = rhs.elts[names.index(node.id)]
+                        for sub in ast.walk(v):
+                            if isinstance(sub, ast.Name) and isinstance(sub.ctx, ast.Load):
+                                if sub.id in names or exp.rd.defs_at(d, sub.id) != exp.rd.defs_at(n, sub.id):
+                                    return node
+                        return exp.expand(d, _c.deepcopy(v), depth - 1)
+                    return node
                 if not isinstance(tg, ast.Name) or tg.id != node.id:
                     return node
                 for sub in ast.walk(v):
